@@ -198,6 +198,68 @@ pub fn check_input(ctx: &mut Ctx, b: &[u8], paths: &[Vec<PathEl>]) {
     }
 }
 
+
+/// (path of the member, span of its key literal) for members whose key is spelled without escapes
+fn plain_keys(r: &recog::R, b: &[u8], cur: &mut Vec<PathEl>, out: &mut Vec<(Vec<PathEl>, usize, usize)>) {
+    if out.len() > 40 {
+        return;
+    }
+    match &r.k {
+        recog::K::Arr(xs) => {
+            for (i, x) in xs.iter().enumerate().take(6) {
+                cur.push(PathEl::Idx(i));
+                plain_keys(x, b, cur, out);
+                cur.pop();
+            }
+        }
+        recog::K::Obj(ms) => {
+            for (k, x) in ms.iter().take(8) {
+                let Some(ks) = k.key_str() else { continue };
+                cur.push(PathEl::Key(ks.to_string()));
+                if !b[k.start..k.end].contains(&b'\\') && k.end - k.start >= 2 {
+                    out.push((cur.clone(), k.start, k.end));
+                }
+                plain_keys(x, b, cur, out);
+                cur.pop();
+            }
+        }
+        _ => {}
+    }
+}
+
+/// A raw quote / control character is put into the spelling of one member name (which makes the
+/// document malformed there) and the lookup uses the name with that very character in it: whatever
+/// a checked API hands out for it is unjustified.
+fn raw_key_case(ctx: &mut Ctx, d: &[u8], seed: u64) {
+    let Ok(doc) = recog::parse_document(d) else { return };
+    let mut keys = vec![];
+    plain_keys(&doc.root, d, &mut vec![], &mut keys);
+    if keys.is_empty() {
+        return;
+    }
+    let mut r = Rng::new(seed);
+    for _ in 0..4 {
+        let (path, ks, ke) = r.pick(&keys).clone();
+        let body_len = ke - ks - 2;
+        let at = r.below(body_len as u64 + 1) as usize; // position inside the key body
+        let c: u8 = *r.pick(&[b'"', b'\t', b'\n', 0x01, 0x1f, b'"']);
+        let mut m = d.to_vec();
+        m.insert(ks + 1 + at, c);
+        let PathEl::Key(name) = path.last().unwrap() else { continue };
+        // the key body has no escapes, so byte positions of spelling and decoded name coincide
+        let mut nb = name.as_bytes().to_vec();
+        if at > nb.len() {
+            continue;
+        }
+        nb.insert(at, c);
+        let Ok(new_name) = String::from_utf8(nb) else { continue };
+        let mut p2 = path.clone();
+        *p2.last_mut().unwrap() = PathEl::Key(new_name);
+        ctx.class("mode:raw-byte-in-key");
+        check_input(ctx, &m, &[p2, path]);
+    }
+}
+
 fn paths_of(b: &[u8]) -> Vec<Vec<PathEl>> {
     match recog::parse_document(b) {
         Ok(d) => all_paths(&d.root, 24),
@@ -247,6 +309,13 @@ impl Check for C14 {
             both.extend_from_slice(&m);
             emit(Case::with("mutated", both, &[n0]));
         }
+        let n = g.count(20_000, 1_000_000);
+        for _ in 0..n {
+            let mut o = DocOpts::random(&mut r);
+            o.budget = o.budget.min(30);
+            let d = doc::gen_doc(&mut r, &o);
+            emit(Case::with("rawkey", d, &[r.next() as i64]));
+        }
         if g.shard == 0 {
             for s in [
                 r#"{xx"a":1}"#, r#"{"b":2 xx,"a":1}"#, r#"[1 x,2]"#, r#"{"b":"\uZZZZ","a":1}"#, r#"{"b":tru,"a":1}"#, r#"{"b":[1,],"a":1}"#,
@@ -278,6 +347,11 @@ impl Check for C14 {
                 ctx.class("mode:every-prefix-and-substitution");
                 ctx.sample("every-prefix-and-subst");
             }
+            "rawkey" => {
+                ctx.nontrivial();
+                raw_key_case(ctx, d, c.p(0) as u64);
+                ctx.sample("rawkey");
+            }
             "hand" => {
                 let paths = vec![vec![PathEl::Key("a".into())], vec![PathEl::Idx(1)], vec![PathEl::Idx(0), PathEl::Idx(1)], vec![PathEl::Key("b".into())]];
                 ctx.nontrivial();
@@ -295,6 +369,6 @@ impl Check for C14 {
         }
     }
     fn required_classes(&self, _b: &str, _t: Tier) -> Vec<&'static str> {
-        vec!["returned:value", "returned:error", "returned:iter-item", "mode:every-prefix-and-substitution", "mode:mutated"]
+        vec!["returned:value", "returned:error", "returned:iter-item", "mode:every-prefix-and-substitution", "mode:mutated", "mode:raw-byte-in-key"]
     }
 }
